@@ -263,6 +263,17 @@ def c13(cfg):
     return rec
 
 
+class _Swapped:
+    """A two-parameter series read with its two order indices exchanged."""
+
+    def __init__(self, S):
+        self.S = S
+
+    def __getitem__(self, key):
+        i, j, a, b = key
+        return self.S[(i, j, b, a)]
+
+
 def c13_sympy(cfg):
     """Merge / permute / scale relations for a sympy-matrix Hamiltonian with symbols (library Taylor-expands it)."""
     import sympy
@@ -293,6 +304,36 @@ def c13_sympy(cfg):
     elif kind == "symbol_order":
         # the same Hamiltonian with the perturbative symbols listed in the other (non-alphabetical) order: only the order indices swap
         out1 = block_diagonalize(H2, subspace_indices=idx, symbols=[y, x], hermitian=herm)
+    elif kind in ("symbol_order_dict", "symbol_order_dict_int_key"):
+        # the documented dictionary format with monomial keys, {1: h_0, x: h_x, y: h_y, ...}: `symbols` fixes the order of the indices
+        one_key = 1 if kind.endswith("int_key") else sympy.S.One
+        Hd = {one_key: H0, x: As, y: Bs, x * y: Cs, x**2 * y: As}
+        try:
+            out2 = block_diagonalize(dict(Hd), subspace_indices=idx, symbols=[x, y], hermitian=herm)
+            out1 = block_diagonalize(dict(Hd), subspace_indices=idx, symbols=[y, x], hermitian=herm)
+        except Exception as e:  # noqa: BLE001
+            from .herm import library_exception_info
+
+            is_lib, where = library_exception_info(e, pure_inputs=True)
+            if not is_lib:
+                raise
+            rec.direct_violation("library raised on the documented monomial-key dictionary", _sigbase(cfg) + f":sympy-matrix-format:{kind}:raised-{type(e).__name__}",
+                                 {"exception": f"{type(e).__name__}: {e}"[:300], "where": where}, reproduced=True)
+            return rec
+    elif kind == "names_without_symbols":
+        # no `symbols` argument: the perturbative parameters are taken from the Hamiltonian; the result must say which index is which
+        # (matrix entries must be numbers here: every free symbol counts as a perturbative parameter)
+        pt = {sym: sympy.Rational(3 + 2 * k, 2 + (k % 5)) * (-1) ** k for k, sym in enumerate(sorted((As.free_symbols | Bs.free_symbols | Cs.free_symbols), key=str))}
+        H2 = H2.subs(pt)
+        out2 = block_diagonalize(H2, subspace_indices=idx, symbols=[x, y], hermitian=herm)
+        out1 = block_diagonalize(H2, subspace_indices=idx, hermitian=herm)
+        names = list(out1[0].dimension_names)
+        if sorted(map(str, names)) != sorted(map(str, [x, y])):
+            rec.direct_violation("outputs do not name their order indices", _sigbase(cfg) + ":sympy-matrix-format:names_without_symbols:names",
+                                 {"dimension_names": [str(n) for n in names], "expected_some_order_of": [str(x), str(y)]}, reproduced=True)
+            return rec
+        if [str(n) for n in names] == [str(x), str(y)]:
+            out1 = [_Swapped(S) for S in out1]  # compare through the generic swapped-index relation below
     else:
         raise KeyError(kind)
     from pymablock.series import one, zero
@@ -815,7 +856,7 @@ def configs_c13(tier):
     jobs = [("vf.props.relations", "c13", c) for c in cfgs]
     for herm in (True, False):
         for sizes in ([1, 1], [1, 2]):
-            for rel in ("merge", "permute", "symbol_order"):
+            for rel in ("merge", "permute", "symbol_order", "symbol_order_dict", "symbol_order_dict_int_key", "names_without_symbols"):
                 jobs.append(("vf.props.relations", "c13_sympy", dict(sympy_format=True, hermitian=herm, sizes=sizes, spectrum=RAT_SPECTRA[sum(sizes)], relation=rel, max_order=3)))
     return jobs
 
